@@ -22,6 +22,11 @@ func (e BridgeEngine) Gen(r *Run) Step {
 		st.Setup = st.Setup[1:]
 		return s
 	}
+	if st.Race != nil {
+		if s, ok := e.genRace(r); ok {
+			return s
+		}
+	}
 	for try := 0; try < 20; try++ {
 		kind := Weighted(r.Rng, r.Cfg.Weights)
 		if s, ok := e.genKind(r, kind); ok {
@@ -81,6 +86,54 @@ func (e BridgeEngine) genKind(r *Run, kind string) (Step, bool) {
 			}
 		}
 		return blk(txs...), true
+	case "flood":
+		// one block with more transfers of one token than a batch holds, then the batch request
+		if st.Flooded[c.Name] {
+			return Step{}, false
+		}
+		var tok *TokenInfo
+		for _, t := range c.Tokens {
+			if t.Added && t.Kind != "fx" {
+				tok = t
+			}
+		}
+		if tok == nil {
+			return Step{}, false
+		}
+		var txs []Tx
+		n := 101 + r.Rng.IntN(25)
+		for i := 0; i < n; i++ {
+			u := r.Rng.IntN(st.NUsers)
+			dest := ExtAddrStr(c.Name, w.Key("extuser", r.Rng.IntN(10)).Hex())
+			txs = append(txs, Tx{K: "send_to_external", S: KeyName("user", u), A: A("chain", c.Name, "denom", tok.Base, "amount", 1+r.Rng.IntN(9), "fee", 1+r.Rng.IntN(12), "dest", dest)})
+		}
+		if t, ok := e.genBatch(r, c, v); ok {
+			t.A["base_fee"], t.A["min_fee"] = fmt.Sprint(1+r.Rng.IntN(3)), "1"
+			t.A["denom"] = cctypes.NewBridgeDenom(c.Name, ExtAddrStr(c.Name, tok.Contract))
+			txs = append(txs, t)
+		}
+		st.Flooded[c.Name] = true
+		r.Probe("flood-over-batch-size")
+		return blk(txs...), true
+	case "race2":
+		// scripted scenario driven stage by stage from the current state (see genRace): batches of two
+		// tokens in flight together, the newer one executed first
+		if st.Race != nil || st.Raced[c.Name] || !c.Ext.Inited {
+			return Step{}, false
+		}
+		n := 0
+		for _, t := range c.Tokens {
+			if t.Added {
+				n++
+			}
+		}
+		if n < 2 {
+			return Step{}, false
+		}
+		st.Raced[c.Name] = true
+		st.Race = &raceSt{Chain: c.Name}
+		r.Probe("two-token-race-started")
+		return e.genRace(r)
 	case "cancel":
 		if len(v.Pool) == 0 {
 			return Step{}, false
@@ -934,3 +987,118 @@ func (e BridgeEngine) genAdversary(r *Run, c *ChainSt, v *ChainView) (Step, bool
 var _ = sdk.AccAddress{}
 var _ = common.Address{}
 var _ = big.NewInt
+
+// raceSt: progress of the two-token race scenario.
+type raceSt struct {
+	Chain string
+	Stage int
+	Toks  []string // bridge token contracts (external form) of the two batches, older first
+}
+
+// genRace produces the next stage of the scenario from the current committed state. Stages:
+// 0 transfers of two tokens; 1,2 one batch request per token (two blocks); 3 everybody confirms;
+// 4 the NEWER batch is relayed; 5 claims; 6 a sender cancels a transfer of the older batch if it is
+// (wrongly) back in the pool; 7 the older batch is relayed (also when fxcore no longer knows it);
+// 8 claims. Every stage is an ordinary concrete step.
+func (e BridgeEngine) genRace(r *Run) (Step, bool) {
+	st := bst(r)
+	w := r.W
+	rs := st.Race
+	c := st.chain(rs.Chain)
+	v := w.ViewChain(w.Ctx(), c.Name)
+	blk := func(txs ...Tx) Step { return Step{Kind: "block", DtMs: 1000 + int64(r.Rng.IntN(3000)), N: 1, Txs: txs} }
+	end := func() (Step, bool) { st.Race = nil; return Step{}, false }
+	var toks []*TokenInfo
+	for _, t := range c.Tokens {
+		if t.Added {
+			toks = append(toks, t)
+		}
+	}
+	if len(toks) < 2 {
+		return end()
+	}
+	stage := rs.Stage
+	rs.Stage++
+	batchOf := func(contract string) *cctypes.OutgoingTxBatch {
+		var best *cctypes.OutgoingTxBatch
+		for i := range v.Batches {
+			if v.Batches[i].TokenContract == contract && (best == nil || v.Batches[i].BatchNonce > best.BatchNonce) {
+				best = &v.Batches[i]
+			}
+		}
+		return best
+	}
+	switch stage {
+	case 0:
+		var txs []Tx
+		for i, t := range toks[:2] {
+			for k := 0; k < 2; k++ {
+				u := (i*2 + k) % st.NUsers
+				dest := ExtAddrStr(c.Name, w.Key("extuser", r.Rng.IntN(10)).Hex())
+				amt := int64(5 + r.Rng.IntN(50))
+				if t.Kind == "fx" {
+					amt *= 1000
+				}
+				txs = append(txs, Tx{K: "send_to_external", S: KeyName("user", u), A: A("chain", c.Name, "denom", t.Base, "amount", amt, "fee", 20+r.Rng.IntN(5), "dest", dest)})
+			}
+		}
+		return blk(txs...), true
+	case 1, 2:
+		t := toks[stage-1]
+		bt, ok := e.genBatch(r, c, v)
+		if !ok {
+			return end()
+		}
+		denom := cctypes.NewBridgeDenom(c.Name, ExtAddrStr(c.Name, t.Contract))
+		if t.Kind == "fx" {
+			denom = "FX"
+		}
+		bt.A["denom"], bt.A["min_fee"], bt.A["base_fee"] = denom, "1", "0"
+		rs.Toks = append(rs.Toks, ExtAddrStr(c.Name, t.Contract))
+		return blk(bt), true
+	case 3:
+		txs := e.genConfirms(r, c, v, 50)
+		if len(txs) == 0 {
+			return blk(), true
+		}
+		return blk(txs...), true
+	case 4:
+		if len(rs.Toks) < 2 {
+			return end()
+		}
+		b := batchOf(rs.Toks[1])
+		if b == nil || batchOf(rs.Toks[0]) == nil {
+			return end()
+		}
+		r.Probe("two-token-race-newer-batch-relayed-first")
+		return Step{Kind: "relay", A: A("chain", c.Name, "op", "batch", "nonce", b.BatchNonce, "token", b.TokenContract)}, true
+	case 5, 8:
+		txs := e.genClaims(r, c, v)
+		if len(txs) == 0 {
+			return blk(), true
+		}
+		return blk(txs...), true
+	case 6:
+		for _, p := range v.Pool {
+			if p.Token.Contract == rs.Toks[0] {
+				if signer := e.keyNameOfBech(r, p.Sender); signer != "" {
+					return blk(Tx{K: "cancel_send", S: signer, A: A("chain", c.Name, "id", p.Id)}), true
+				}
+			}
+		}
+		return blk(), true
+	case 7:
+		if b := batchOf(rs.Toks[0]); b != nil {
+			return Step{Kind: "relay", A: A("chain", c.Name, "op", "batch", "nonce", b.BatchNonce, "token", b.TokenContract)}, true
+		}
+		// fxcore no longer has it: the relayer still holds the signed batch
+		for _, k := range sortedKeys(st.Chk.batches) {
+			sb := st.Chk.batches[k]
+			if strings.HasPrefix(k, c.Name+"|") && ExtAddrStr(c.Name, sb.b.Token) == rs.Toks[0] {
+				return Step{Kind: "relay", A: A("chain", c.Name, "op", "batch", "nonce", sb.b.Nonce, "token", rs.Toks[0])}, true
+			}
+		}
+		return end()
+	}
+	return end()
+}
